@@ -526,6 +526,15 @@ def _eval_sweep(cases):
         e, args = build_args(case)
         pos, layout = case.get('pos'), case.get('layout', 'C')
         findings = []
+        crashed = [(hi, hres[idx]) for hi, hres in enumerate(heap) if hres[idx][0] == 'crash']
+        if crashed:
+            # the isolated workers already died on this call: do not repeat it inside the checking process
+            hi, h = crashed[0]
+            out.append(dict(findings=[dict(kind='property', key=_key(case['fn'], 'crash'),
+                                           detail=dict(fn=case['fn'], pos=pos, layout=layout, heap=hi, rc=h[1], err=h[2]))],
+                            nontrivial=True, sig=json.dumps(case, sort_keys=True),
+                            tags=dict(stream='sweep', layout=layout, fn=case['fn'], outcome='crash', module=e['path'].rsplit('.', 1)[0])))
+            continue
         base = run_call(e, {k: (v.copy() if isinstance(v, np.ndarray) else v) for k, v in args.items()})
         a = laid_out(args, pos, layout)
         arrs = {k: v for k, v in a.items() if isinstance(v, np.ndarray)}
@@ -763,7 +772,7 @@ def cases(rng, tier):
             for nd in (1, 2, 3):
                 for _ in range(dict(quick=1, thorough=5, search=2)[tier]):
                     out.append(dict(stream='norm', norm=norm, layout=layout, nd=nd, seed=rng.randrange(1 << 30)))
-    ninputs = dict(quick=1, thorough=40, search=4)[tier]
+    ninputs = dict(quick=3, thorough=40, search=6)[tier]
     for name in sorted(reg_):
         e = reg_[name]
         for _ in range(ninputs):
